@@ -467,6 +467,9 @@ pub struct RandomResult {
     pub hash: u64,
 }
 
+/// set under Miri, where a megabyte-sized object costs tens of minutes
+pub static NO_LARGE: std::sync::atomic::AtomicBool = std::sync::atomic::AtomicBool::new(false);
+
 pub fn run_random(
     seed: u64,
     idx: u64,
@@ -485,7 +488,7 @@ pub fn run_random(
         kind,
         "BlindRotationKey" | "BlindRotationKeyCompressed" | "CircuitBootstrappingKey" | "BDDKey" | "GLWETensorKey" | "GLWETensorKeyCompressed" | "GGLWEToGGSWKey" | "GGLWEToGGSWKeyCompressed"
     );
-    if rng.chance(if thorough { 50 } else { 25 }) && !composite {
+    if rng.chance(if thorough { 50 } else { 25 }) && !composite && !NO_LARGE.load(std::sync::atomic::Ordering::Relaxed) {
         base = Lay::large(&mut rng);
         stats.bump("config.large_object");
     }
